@@ -14,7 +14,8 @@ Every op is executed on the real object; sampler function, hard flag, training f
 theta_alpha after EVERY step are compared inside Coq (vm_compute) with Model/Sampler.v.  exp enters the
 model as a finite table holding the implementation's own float arguments (exact fractions, float64
 exponentials); Gumbel noise is regenerated with the primitive F.gumbel_softmax uses after re-seeding
-torch and handed to the model.  Oracle: the sentences of the property on the implementation.
+torch and handed to the model.  Oracle: the sentences of the property on the implementation; summary() and export() must report / materialise
+the arg-max alternative of the CURRENT raw coefficients (also right after an alpha update, before any forward) and agree.
 """
 import math, itertools, json
 import time
@@ -269,22 +270,29 @@ def exec_case(spec):
     if o.kind == 'comb':
         res['best'] = o.q.best_layer_index()
         if spec.get('export'):
-            # summary()/export() against the evaluated coefficients (summary of a Gumbel sampler in training
-            # re-samples: that is C18's observation, not checked here)
+            # summary()/export() against argmax of the CURRENT raw coefficients and against each other; against the
+            # evaluated one-hot only if a forward pass happened after the last coefficient update
             import torch.nn as nn
             try:
                 best = argmax_first(st['alpha'][0])
-                ev = onehot_pos(st['theta'][0]) if (not st['training'] or st['hard']) and st['name'] == 'sample_alpha_sm' else None
-                if st['name'] == 'sample_alpha_sm' or not st['training']:
-                    sm = o.top.summary()
-                    vals = [b['alpha'] for b in list(sm.values())[0]['supernet_branches'].values()]
-                    if argmax_first(vals) != best:
-                        res['fails'].append(('supernet:summary-largest-is-not-argmax-alpha', 'summary() reports its largest coefficient at branch %d, argmax(alpha) is %d' % (argmax_first(vals), best), len(spec['ops'])))
+                kinds = [op[0] for op in spec['ops'][:len(res['steps'])]]
+                last_fwd = max([i for i, k_ in enumerate(kinds) if k_ == 'fwd'], default=-1)
+                last_opt = max([i for i, k_ in enumerate(kinds) if k_ == 'opt'], default=-2)
+                fresh = last_fwd > last_opt
+                tag = '' if fresh else ':after-alpha-update-without-forward'
+                ev = onehot_pos(st['theta'][0]) if fresh and (not st['training'] or st['hard']) and st['name'] == 'sample_alpha_sm' else None
+                sm = o.top.summary()
+                vals = [b['alpha'] for b in list(sm.values())[0]['supernet_branches'].values()]
+                res['summary_best'] = argmax_first(vals)
+                if argmax_first(vals) != best:
+                    res['fails'].append(('supernet:summary-largest-is-not-argmax-alpha' + tag, 'summary() reports its largest coefficient at branch %d, argmax(alpha) is %d' % (argmax_first(vals), best), len(spec['ops'])))
                 e = o.top.export()
                 ks = [m.kernel_size[0] for n_, m in e.named_modules() if isinstance(m, nn.Conv2d) and n_ != 'l']
                 res['exported'] = ks
+                if ks != [KSIZES[res['summary_best']]]:
+                    res['fails'].append(('supernet:summary-differs-from-export' + tag, 'summary() reports branch %d (kernel %d) as the largest, export() kept kernel sizes %r' % (res['summary_best'], KSIZES[res['summary_best']], ks), len(spec['ops'])))
                 if ks != [KSIZES[best]] or res['best'] != best:
-                    res['fails'].append(('supernet:export-is-not-argmax-alpha', 'export() kept kernel sizes %r and best_layer_index() = %d; argmax(alpha) = %d has kernel %d' % (ks, res['best'], best, KSIZES[best]), len(spec['ops'])))
+                    res['fails'].append(('supernet:export-is-not-argmax-alpha' + tag, 'export() kept kernel sizes %r and best_layer_index() = %d; argmax(alpha) = %d has kernel %d' % (ks, res['best'], best, KSIZES[best]), len(spec['ops'])))
                 if ev is not None and ev != best:
                     res['fails'].append(('supernet:evaluated-onehot-differs-from-export', 'evaluated one-hot at %d, exported %d' % (ev, best), len(spec['ops'])))
             except Exception as ex:
@@ -363,6 +371,17 @@ def specs_config(ctx):
                     out.append({'fam': 'config', 'kind': 'comb', 'n': n, 'c': 1, 'ctor': (T, h, g, False), 'alpha': gen_alpha(rng, n, 1),
                                 'mode': 'train' if tr else 'eval', 'ops': [('fwd', rng.randrange(1 << 30))],
                                 'export': rng.random() < (0.35 if ctx.quick else 0.5), 'fresh': True})
+    # forward, then alpha := alpha' with the arg-max moved, then summary()/export() with NO forward in between
+    for T in TEMPS:
+        for h, g, tr in itertools.product((False, True), repeat=3):
+            n = rng.randint(2, 8)
+            a0 = gen_alpha(rng, n, 1)
+            a1 = gen_alpha(rng, n, 1)
+            if argmax_first(a1[0]) == argmax_first(a0[0]):
+                k, o2 = argmax_first(a1[0]), (argmax_first(a1[0]) + 1 + rng.randrange(n - 1)) % n
+                a1[0][k], a1[0][o2] = a1[0][o2], a1[0][k]
+            out.append({'fam': 'flip', 'kind': 'comb', 'n': n, 'c': 1, 'ctor': (T, h, g, False), 'alpha': a0, 'mode': 'train' if tr else 'eval',
+                        'ops': [('fwd', rng.randrange(1 << 30)), ('opt', a1)], 'export': True, 'fresh': True})
     # every length / the extreme matrix shapes at least once per tier, in eval mode and hard training
     for n in sizes_l:
         for kind, c in (('layer', 1), ('comb', 1), ('chan', 16), ('chan', 1)):
@@ -489,10 +508,11 @@ def specs_random(ctx, count):
                 ops.append(('eval',))
             else:
                 ops.append(('opt', gen_alpha(rng, n, c)))
-        ops.append(('fwd', rng.randrange(1 << 30)))
+        if rng.random() < 0.6:
+            ops.append(('fwd', rng.randrange(1 << 30)))
         g = rng.random() < 0.5
         out.append({'fam': 'random', 'kind': kind, 'n': n, 'c': c, 'ctor': (rng.choice(TEMPS), rng.random() < 0.3, g, False if kind == 'comb' else rng.random() < 0.15),
-                    'alpha': gen_alpha(rng, n, c), 'mode': 'train', 'ops': ops, 'export': kind == 'comb' and rng.random() < 0.2, 'fresh': True})
+                    'alpha': gen_alpha(rng, n, c), 'mode': 'train', 'ops': ops, 'export': kind == 'comb' and rng.random() < 0.3, 'fresh': True})
         if out[-1]['export'] is False:
             out[-1]['fresh'] = False
     return out
@@ -573,58 +593,82 @@ def exec_model(spec):
             if not (b['name'] == 'sample_alpha_gs' and b['training']):
                 res['samples'].append({'q': n_, 'state': dict(b, gumbel=b['name'] == 'sample_alpha_gs', disabled=b['name'] == 'sample_alpha_none'),
                                        'tab': tab, 'theta': after['theta']})
-        # summary / export against argmax(alpha) of the selector each layer uses
-        summ = p.summary()
-        mode_argmax = not any(b['name'] == 'sample_alpha_none' for b in before.values())
-        exp = p.export()
-        for lname, layer in p.seed.named_modules():
-            if not isinstance(layer, MPSModule):
-                continue
-            rec = {'layer': lname}
-            for role in ('in', 'out', 'w'):
-                q = getattr(layer, role + '_mps_quantizer', None)
-                if q is None or not isinstance(q, MPSBaseQtz) or (role + '_precision') not in summ.get(lname, {}):
+        def check_selection(phase):
+            # summary() / export() against argmax of the CURRENT raw coefficients of the selector each layer uses
+            # phase 'after-forward': also against the evaluated one-hot;  phase 'after-alpha-update': the coefficients
+            # were replaced (arg-max flipped) and NO forward pass happened since
+            tag = '' if phase == 'after-forward' else ':after-alpha-update-without-forward'
+            summ = p.summary()
+            mode_argmax = not any(b['name'] == 'sample_alpha_none' for b in before.values())
+            exp = p.export()
+            for lname, layer in p.seed.named_modules():
+                if not isinstance(layer, MPSModule):
                     continue
-                al = q.alpha.detach()
-                acols = [[frac(v) for v in al[:, j].tolist()] for j in range(al.shape[1])] if al.dim() == 2 else [[frac(v) for v in al.tolist()]]
-                prec = [int(v) for v in q.precision.tolist()]
-                want = [prec[argmax_first(c)] for c in acols]
-                th = q.theta_alpha.detach()
-                tcols = [[frac(v) for v in th[:, j].tolist()] for j in range(th.shape[1])] if th.dim() == 2 else [[frac(v) for v in th.tolist()]]
-                got = summ.get(lname, {}).get(role + '_precision')
-                gotl = got if isinstance(got, list) else [got]
-                rec[role] = {'alpha': acols, 'prec': prec, 'summary': gotl}
-                if gotl != want:
-                    res['fails'].append(('mps:summary-is-not-argmax-alpha', '%s.%s_precision: summary() says %r, argmax(alpha) selects %r' % (lname, role, gotl, want), lname))
-                if spec['final_mode'] == 'eval' and mode_argmax:
-                    ev = [None if onehot_pos(c) is None else prec[onehot_pos(c)] for c in tcols]
-                    if role != 'in' and ev != want:
-                        res['fails'].append(('mps:evaluated-differs-from-summary', '%s.%s: evaluated one-hot selects %r, summary()/argmax(alpha) %r' % (lname, role, ev, want), lname))
-                # exported module
-                try:
-                    em = exp.get_submodule(lname)
-                    subs = [m for m in em.modules() if hasattr(m, role + '_quantizer')]
-                    if role == 'w':
-                        hist = {}
-                        for m in subs:
-                            hist[int(m.w_quantizer.precision)] = hist.get(int(m.w_quantizer.precision), 0) + int(getattr(m, 'out_channels', getattr(m, 'out_features', 0)))
-                        wanth = {}
-                        for v in want:
-                            wanth[v] = wanth.get(v, 0) + 1
-                        if len(want) == 1:
-                            okx = list(hist.keys()) == want
+                rec = {'layer': lname, 'phase': phase}
+                for role in ('in', 'out', 'w'):
+                    q = getattr(layer, role + '_mps_quantizer', None)
+                    if q is None or not isinstance(q, MPSBaseQtz) or (role + '_precision') not in summ.get(lname, {}):
+                        continue
+                    al = q.alpha.detach()
+                    acols = [[frac(v) for v in al[:, j].tolist()] for j in range(al.shape[1])] if al.dim() == 2 else [[frac(v) for v in al.tolist()]]
+                    prec = [int(v) for v in q.precision.tolist()]
+                    want = [prec[argmax_first(c)] for c in acols]
+                    th = q.theta_alpha.detach()
+                    tcols = [[frac(v) for v in th[:, j].tolist()] for j in range(th.shape[1])] if th.dim() == 2 else [[frac(v) for v in th.tolist()]]
+                    got = summ.get(lname, {}).get(role + '_precision')
+                    gotl = got if isinstance(got, list) else [got]
+                    rec[role] = {'alpha': acols, 'prec': prec, 'summary': gotl}
+                    if gotl != want:
+                        res['fails'].append(('mps:summary-is-not-argmax-alpha' + tag, '%s.%s_precision: summary() says %r, argmax(alpha) selects %r' % (lname, role, gotl, want), lname))
+                    if phase == 'after-forward' and spec['final_mode'] == 'eval' and mode_argmax:
+                        ev = [None if onehot_pos(c) is None else prec[onehot_pos(c)] for c in tcols]
+                        if role != 'in' and ev != want:
+                            res['fails'].append(('mps:evaluated-differs-from-summary', '%s.%s: evaluated one-hot selects %r, summary()/argmax(alpha) %r' % (lname, role, ev, want), lname))
+                    # exported module
+                    try:
+                        em = exp.get_submodule(lname)
+                        subs = [m for m in em.modules() if hasattr(m, role + '_quantizer')]
+                        if role == 'w':
+                            hist = {}
+                            for m in subs:
+                                hist[int(m.w_quantizer.precision)] = hist.get(int(m.w_quantizer.precision), 0) + int(getattr(m, 'out_channels', getattr(m, 'out_features', 0)))
+                            wanth = {}
+                            for v in want:
+                                wanth[v] = wanth.get(v, 0) + 1
+                            if len(want) == 1:
+                                okx = list(hist.keys()) == want
+                            else:
+                                okx = hist == wanth
+                            rec[role]['exported'] = hist
                         else:
-                            okx = hist == wanth
-                        rec[role]['exported'] = hist
-                    else:
-                        gotp = sorted({int(getattr(m, role + '_quantizer').precision) for m in subs if getattr(m, role + '_quantizer') is not None})
-                        okx = gotp == want
-                        rec[role]['exported'] = gotp
-                    if not okx:
-                        res['fails'].append(('mps:export-is-not-argmax-alpha', '%s.%s: exported %r, argmax(alpha) selects %r' % (lname, role, rec[role]['exported'], want), lname))
-                except Exception as ex:
-                    res['fails'].append(('mps:export-inspection-raised', 'EXC:%s %s' % (type(ex).__name__, str(ex)[:150]), lname))
-            res['sel'].append(rec)
+                            gotp = sorted({int(getattr(m, role + '_quantizer').precision) for m in subs if getattr(m, role + '_quantizer') is not None})
+                            okx = gotp == want
+                            rec[role]['exported'] = gotp
+                        agree = (list(rec[role]['exported'].keys()) == gotl if len(want) == 1 else rec[role]['exported'] == {v: gotl.count(v) for v in set(gotl)}) if role == 'w' else rec[role]['exported'] == gotl
+                        if not agree:
+                            res['fails'].append(('mps:summary-differs-from-export' + tag, '%s.%s: summary() says %r, export() materialises %r' % (lname, role, gotl, rec[role]['exported']), lname))
+                        if not okx:
+                            res['fails'].append(('mps:export-is-not-argmax-alpha' + tag, '%s.%s: exported %r, argmax(alpha) selects %r' % (lname, role, rec[role]['exported'], want), lname))
+                    except Exception as ex:
+                        res['fails'].append(('mps:export-inspection-raised', 'EXC:%s %s' % (type(ex).__name__, str(ex)[:150]), lname))
+                res['sel'].append(rec)
+        check_selection('after-forward')
+        # alpha := alpha' with the arg-max of every decision moved (optimizer step / load_state_dict / manual edit),
+        # then summary() and export() WITHOUT a forward pass in between
+        with torch.no_grad():
+            for n_, m in qs.values():
+                P = m.alpha.shape[0]
+                C = m.alpha.shape[1] if m.alpha.dim() == 2 else 1
+                old = m.alpha.detach()
+                oldc = [old[:, j].tolist() for j in range(C)] if old.dim() == 2 else [old.tolist()]
+                new = gen_alpha(rng, P, C)
+                for j in range(C):
+                    if P > 1 and argmax_first(new[j]) == argmax_first(oldc[j]):
+                        k, o2 = argmax_first(new[j]), (argmax_first(new[j]) + 1 + rng.randrange(P - 1)) % P
+                        new[j][k], new[j][o2] = new[j][o2], new[j][k]
+                a = torch.tensor(new, dtype=torch.float32)
+                m.alpha.copy_(a.t() if m.alpha.dim() == 2 else a[0])
+        check_selection('after-alpha-update')
     except Exception as ex:
         import traceback
         res['fails'].append(('mps:model-run-raised', 'EXC:%s %s' % (type(ex).__name__, traceback.format_exc()[-400:]), None))
@@ -693,7 +737,7 @@ def run(ctx):
     ctx.rule = ('(a) one forward per (temperature of {0.05..20}) x (hard, gumbel, disable_sampling, train/eval) on per-layer vectors (length 1..8), per-channel matrices (up to 8x16) and '
                 'SuperNet combiners (length 1..8, inside a real SuperNet) with pairwise coefficient gaps >= 0.05; (b) breadth-first closure of the abstract state '
                 '(sampler fn, hard, training, temperature, coefficients, content of theta) under the whole op alphabet (update_softmax_options with every None/True/False combination '
-                'of hard, gumbel, disable_sampling and temperature None/new, train, eval, forward, optimizer step); (c) random sequences of 6..13 ops; (d) whole MPS models: summary()/export() '
+                'of hard, gumbel, disable_sampling and temperature None/new, train, eval, forward, optimizer step); (c) random sequences of 6..13 ops (also ending without a forward) and forward -> alpha := new alpha with the arg-max moved -> summary()/export() with no forward in between; (d) whole MPS models: summary()/export() after a forward and again after replacing every alpha (arg-max moved) without a forward, '
                 'against argmax(alpha) and the evaluated one-hot.  non-trivial = at least one forward pass with more than one alternative; distinct = distinct (object kind, initial state, op sequence)')
     from concurrent.futures import ProcessPoolExecutor
     import multiprocessing as mp
